@@ -687,16 +687,20 @@ def docs_cases(seed, variants):
             docs = []
             for f in files:
                 d = mk_doc(ex["lang"], f["name"], f["code"].split("\n")[:-1] if f["code"].endswith("\n") else f["code"].split("\n"), [], "docs")
-                if vname == "vshift":
-                    t_vshift(d, r)
-                elif vname == "wrap":
-                    t_wrap(d, r)
-                    if "wrap" not in d["tags"]:
-                        d = None
-                elif vname == "crlf":
-                    t_crlf(d, r)
-                elif vname == "nonl":
-                    t_nonl(d, r)
+                for step in vname.split("+"):
+                    if d is None:
+                        break
+                    if step == "vshift":
+                        t_vshift(d, r)
+                    elif step == "wrap":
+                        before = len(d["tags"])
+                        t_wrap(d, r)
+                        if len(d["tags"]) == before:
+                            d = None
+                    elif step == "crlf":
+                        t_crlf(d, r)
+                    elif step == "nonl":
+                        t_nonl(d, r)
                 if d is None:
                     docs = None
                     break
@@ -1084,7 +1088,9 @@ def run(tier: str, seed: int, replay: str | None = None) -> int:
                     chk.notes.append(f"generator {name} #{i} failed: {type(e).__name__}: {e}")
                     chk.broken.append(f"Model:generator {name} raised {type(e).__name__}: {str(e)[:200]}")
                     break
-        variants = ["base", "vshift", "wrap", "crlf", "nonl"] if tier == "quick" else ["base", "vshift", "wrap", "crlf", "nonl"]
+        variants = ["base", "vshift", "wrap", "crlf", "nonl"]
+        if tier != "quick":
+            variants += ["vshift+crlf", "wrap+vshift", "wrap+nonl", "vshift+nonl", "wrap+crlf", "vshift+vshift"]
         dcs, ext = docs_cases(seed, variants)
         cases += dcs
         if ext["unknown_docs"]:
@@ -1159,6 +1165,7 @@ def run(tier: str, seed: int, replay: str | None = None) -> int:
     # ---- decide
     judged_cases = set()
     cand_all = None
+    mismatches = []
     for (ci, rel, lines, cons, reps), ver in zip(jobs, verdicts):
         case = cases[ci]
         if ver is None:
@@ -1176,8 +1183,8 @@ def run(tier: str, seed: int, replay: str | None = None) -> int:
                        "line_text": lines[rep["line"] - 1] if 1 <= rep["line"] <= len(lines) else None, "n_lines": len(lines)}
             if spec_ok:
                 if rep["recorded"] and not cand[0]:
-                    chk.correspondence_broken({"level": "observable", "detail": "the reported position satisfies the property but is not the position the builder model "
-                                               "(line / column expressions read from the source) predicts", **payload, "case": slim(case)})
+                    mismatches.append({"level": "observable", "detail": "the reported position satisfies the property but is not the position the builder model "
+                                       "(line / column expressions read from the source) predicts under the claimed quirk vector", **payload, "case": slim(case)})
                 continue
             if rep["recorded"]:
                 relevant = [FLAGS[i] for i in range(len(FLAGS)) if not cand[1 + i]]
@@ -1247,7 +1254,12 @@ def run(tier: str, seed: int, replay: str | None = None) -> int:
         alt = [i for i, ok in enumerate(cand_all) if ok]
         names = ["actual"] + [f"actual without {f}" for f in FLAGS] + ["ideal"]
         if alt:
-            chk.notes.append("implementation no longer matches the claimed quirk vector on every report but matches: " + names[alt[0]])
+            # a listed deviation is no longer observed: every theorem is stated for all quirk vectors, the property is still shown
+            chk.notes.append("implementation no longer matches the claimed quirk vector but matches on every judged report: " + names[alt[0]] +
+                             " (a listed defect is no longer observed)")
+            mismatches = []
+    for mm_ in mismatches[:20]:
+        chk.correspondence_broken(mm_)
     if ext.get("unparsable"):
         chk.extra_cov["doc_examples_unparsable"] = len(ext["unparsable"])
     return chk.finish()
